@@ -153,6 +153,7 @@ class Flow:
         self.fi = fi
         self.fold = dict(fold or {})
         self.mutations: List[Mutation] = []
+        self.alias_stores: List[Tuple[ast.AST, FrozenSet[str]]] = []  # fresh_obj.field = <value aliasing borrowed storage>
         self.returned = P_FRESH
         self.state: Dict[str, Prov] = {}
         a = fi.node.args
@@ -424,6 +425,8 @@ class Flow:
             p = self.prov(st.value)
             for t in st.targets:
                 self.store_target(t, st, "attribute/item store")
+                if isinstance(t, ast.Attribute) and not self.prov(t.value).borrowed() and p.roots:
+                    self.alias_stores.append((st, p.roots))
                 if isinstance(t, (ast.Name, ast.Tuple, ast.List)):
                     if isinstance(t, ast.Name):
                         self.state[t.id] = p
